@@ -13,7 +13,7 @@ EXPLANATION = ("Q1 the transition relation of the start/next/finish shims, obtai
                "components, stores Done's result and returns Ok(None), maps a closed channel to Err(EndOfStream); the control list of the stored "
                "result, as a list term over the list the received result carries itself and the vector received next to it, composed with "
                "what the driver puts into those two when it forwards a SearchResultDone, is exactly the decoded control list - once; "
-               "Q3 constants (is_ref <=> 19, is_intermediate <=> 25, 80, 88); Q4 Ldap::search = streaming_search_with(EntriesOnly) + "
+               "Q5 cancel safety: nothing is moved out of the stream across an await of the stepping function, and no shim leaves a field changed only for the time its callee runs (the chain position) when its future is dropped at that await; Q3 constants (is_ref <=> 19, is_intermediate <=> 25, 80, 88); Q4 Ldap::search = streaming_search_with(EntriesOnly) + "
                "push every entry in order + finish; EntriesOnly drops intermediates, collects referral URIs, passes everything else.")
 TRUSTED = ['the adapter chain is entered through these shims only (fields are private: witness crate)', 'tokio mpsc FIFO']
 UNDECIDED = ['what the server sent (C01 carries it to the channel)', 'user-defined adapters']
@@ -240,6 +240,20 @@ def run(ctx):
     # Q5 the stepping function is cancel safe: nothing of the stream is held by the pending future while it waits
     import cancel
     n_aw = cancel.check(ctx, 'Q5.nothing-moved-out-of-the-stream-across-await', f, N)
+    # Q5 for the three shims: what a shim changes only for the time its callee runs (the position in the adapter chain) must not be
+    # left changed when the pending future is dropped at that await - the next call would start further down the chain, bypass the
+    # adapters and never reach Done
+    for shim, SB in (('start', S), ('next', B), ('finish', F)):
+        brack = set()
+        for st_name in STATES:
+            for o in run_from(f, SB, st_name):
+                for fld, val in cancel.fields_bracketed_around_await(o, SELF):
+                    if fld != 'state':
+                        brack.add((fld, val))
+        ctx.add('Q5.shim-restores-chain-position', shim, loc(SB.root), not brack,
+                '%s() sets %s before awaiting the adapter and sets it back afterwards: if the pending future is dropped at that await (tokio::time::timeout or select! '
+                'around it) the stream keeps the temporary value, later calls bypass the adapter chain, the state never becomes Done and a further next() panics'
+                % (shim, ', '.join('%s = %s' % b for b in sorted(brack))))
     ctx.floor('Q5', 'await points on the paths of next_inner', n_aw, 1)
     ctx.analysed['bodies'].add(N.path)
     outs = [o for o in run_from(f, N, 'Active') if o.kind in ('val', 'ret')]
